@@ -306,15 +306,221 @@ def i_class(F, res):
         res.add([ok("I-CLASS", key2, where(f), "policy payload -> first argument, name payload -> second")])
 
 
+# ------------------------------------------------------------------------------------------------
+# C-ORDER: `contains` is the component-wise >= order on non-negative amounts (decided over order types)
+
+def _spec_contains_total(sc):
+    """what the property states for one entry `o` of the value to be contained, `s` = the containing value's amount of that
+    class (absent = 0): zero entries are immaterial; otherwise contained iff s >= o.  Negative amounts are outside the stated
+    domain (None = not specified)."""
+    r = sc["rank"]
+    zero = r[("const", 0)]
+    o = r[("iter",)]
+    if o < zero:
+        return None
+    if sc["present"]:
+        sv = r[("get",)]
+        if sv < zero:
+            return None
+    else:
+        sv = zero
+    if o == zero:
+        return "continue"
+    return "continue" if sv >= o else False
+
+
+def _spec_nonpositive(sc):
+    """is_empty_or_negative: false as soon as one amount is positive"""
+    r = sc["rank"]
+    return False if r[("iter",)] > r[("const", 0)] else "continue"
+
+
+def _spec_all_zero(sc):
+    r = sc["rank"]
+    return "continue" if r[("iter",)] == r[("const", 0)] else False
+
+
+ORDER_SPECS = [
+    # (function, uses a lookup in the other operand, spec, result when every entry passed, what the property says)
+    ("tx3_tir::model::assets::CanonicalAssets::contains_total", True, _spec_contains_total, True,
+     "`contains` is exactly the component-wise >= order on non-negative amounts; zero entries are immaterial"),
+    ("tx3_tir::model::assets::CanonicalAssets::is_empty_or_negative", False, _spec_nonpositive, True,
+     "a value is `empty or negative` iff no amount is positive (the selection's stop condition)"),
+]
+
+
+def c_order(F, res, rule="C-ORDER", specs=ORDER_SPECS):
+    from .. import ordering
+    for path, uses_get, spec, all_pass, text in specs:
+        f = F.fns.get(path)
+        key = "%s|entry-wise decision table" % path
+        if f is None:
+            res.add([assumption(rule, key, "crates/tx3-tir/src/model/assets.rs", "%s not found under this name: its decision table is not decided" % path.split("::")[-1])])
+            continue
+        w = where(f)
+        try:
+            ep = ordering.EntryPredicate(F, f)
+            lits, rows = ep.table(uses_get=uses_get)
+            ex = ep.exhausted_result()
+        except ordering.Shape as e:
+            res.add([assumption(rule, key, w, "not of the entry-wise comparison shape (%s): decision table not decided" % e)])
+            continue
+        bad = []
+        checked = 0
+        for sc, v in rows:
+            want = spec(sc)
+            if want is None:
+                continue
+            checked += 1
+            if v != want:
+                bad.append("%s: the code says %s, the property says %s" % (ordering.describe(sc, lits), v, want))
+        if ex is not None and ex != all_pass:
+            bad.append("when every entry passes the result is %s instead of %s" % (ex, all_pass))
+        if bad:
+            res.add([finding(rule, key, w, "%s - %s" % (text, "; ".join(bad[:3])))])
+        else:
+            res.add([ok(rule, key, w, "%d order types of (amount, other amount, 0) inside the stated domain agree with: %s" % (checked, text))])
+
+
+# ------------------------------------------------------------------------------------------------
+# I-POINTWISE: + / - / unary - act entry by entry with that very operator
+
+def i_pointwise(F, res):
+    """Add and Sub merge the right operand's entries into the left operand's map by `entry op= value` with op = + resp. -
+    (left operand first for -), Neg replaces every amount by its negation.  Recognised shapes: the in-place merge loop (also
+    through a shared helper taking the operator as a closure) and `a - b = a + (-b)` by delegation.  Another shape is not
+    decided (assumption), never reported."""
+    OPS = {"std::ops::Add": ("add", ("Add", "AddWithOverflow"), "+"), "std::ops::Sub": ("sub", ("Sub", "SubWithOverflow"), "-")}
+    for tr, (meth, binops, sym) in OPS.items():
+        f0 = F.fns.get("<%s as %s>::%s" % (CA, tr, meth))
+        key = "%s|%s is entry-wise %s" % (CA, meth, sym)
+        if f0 is None:
+            res.add([finding("I-POINTWISE", key, "crates/tx3-tir/src/model/assets.rs", "CanonicalAssets does not implement %s" % tr)])
+            continue
+        w = where(f0)
+
+        def want(t, callee):
+            return callee["crate"] == "tx3_tir" and not callee.get("impl_trait") and len(callee["blocks"]) <= 120
+        _KEEP.append(want)
+        f = mir.inline_calls(F, f0, want=want, depth=2)
+        du = mir.DefUse(f)
+        # delegation: Sub = Add(self, Neg(other))
+        calls = [(bi, t) for bi, t in mir.calls(f)]
+        deleg = [t for bi, t in calls if (t.get("resolved") or "").startswith("<%s as std::ops::" % CA)]
+        bodies = [f] + [F.fns[st["rv"]["closure"]] for _, _, st in mir.stmts(f) if st["rv"]["k"] == "agg" and st["rv"].get("closure") in F.fns]
+        ar = []
+        for b in bodies:
+            for bi, si, st in mir.stmts(b):
+                rv = st["rv"]
+                if rv["k"] == "binop" and rv.get("ty") == "i128" and rv["op"] in ("Add", "Sub", "Mul", "Div", "Rem", "AddWithOverflow", "SubWithOverflow", "MulWithOverflow", "BitXor", "BitAnd", "BitOr", "Shl", "Shr"):
+                    ar.append((b, st))
+                elif rv["k"] == "unop" and rv.get("op") == "Neg":
+                    ar.append((b, st))
+            for bi, t in mir.calls(b):
+                n = (t.get("callee") or "").split("::")[-1]
+                if n.startswith(("checked_", "wrapping_", "saturating_", "overflowing_")) and "i128" in (t.get("callee") or ""):
+                    ar.append((b, {"rv": {"k": "callop", "op": n, "a": t["args"][0], "b": t["args"][1] if len(t["args"]) > 1 else None}, "line": t["line"]}))
+        if deleg and not ar:
+            names = sorted({(t.get("resolved") or "").split("::")[-1] for t in deleg})
+            if meth == "sub" and names == ["add", "neg"]:
+                # a - b = a + (-b): the negated operand must be the right one
+                negt = [t for t in deleg if (t.get("resolved") or "").endswith("::neg")][0]
+                src = {o.local for o in mir.provenance(f, du, negt["args"][0]) if o.kind == "arg"}
+                if src == {2}:
+                    res.add([ok("I-POINTWISE", key, w, "a - b is computed as a + (-b)")])
+                else:
+                    res.add([finding("I-POINTWISE", key, w, "subtraction negates the wrong operand")])
+            else:
+                res.add([assumption("I-POINTWISE", key, w, "delegates to %s: not decided" % ", ".join(names))])
+            continue
+        if len(ar) != 1:
+            if not ar:
+                res.add([assumption("I-POINTWISE", key, w, "no amount arithmetic found in the recognised shapes: not decided")])
+            else:
+                res.add([finding("I-POINTWISE", key, w, "%s combines amounts with %d arithmetic operations (%s) where one entry-wise `%s` is expected" % (
+                    meth, len(ar), ", ".join(sorted({st["rv"].get("op", "?") for _, st in ar})), sym))])
+            continue
+        b, st = ar[0]
+        rv = st["rv"]
+        op = rv.get("op")
+        good_op = op in binops or (rv["k"] == "callop" and op in ("checked_" + meth, "overflowing_" + meth))
+        if not good_op:
+            res.add([finding("I-POINTWISE", key, where(f0, st["line"]), "%s combines the amounts with `%s` instead of `%s`" % (meth, op, sym))])
+            continue
+        # operand roles: left = the accumulated entry (a `&mut i128` obtained from the left operand's map / the closure's first
+        # parameter), right = the right operand's amount
+        db = mir.DefUse(b)
+
+        def role(o):
+            if o is None:
+                return "?"
+            pl = mir.op_place(o)
+            if pl is None:
+                return "const"
+            org = mir.provenance(b, db, o)
+            if any(x.kind == "call" and (x.callee.split("::")[-1] in ("or_default", "or_insert", "or_insert_with", "entry", "get_mut")) for x in org):
+                return "entry"
+            if b is not f and any(x.kind == "arg" and x.local == 2 for x in org):
+                return "entry"     # closure |acc, v|: first parameter
+            if b is not f and any(x.kind == "arg" and x.local == 3 for x in org):
+                return "value"
+            if any(x.kind == "call" and x.term.get("method") in ("next",) for x in org):
+                return "value"
+            return "?"
+        ra, rb = role(rv["a"]), role(rv.get("b"))
+        if (ra, rb) == ("entry", "value") or (meth == "add" and (ra, rb) == ("value", "entry")):
+            res.add([ok("I-POINTWISE", key, where(f0, st["line"]), "entry %s= value of the right operand" % sym)])
+        elif "?" in (ra, rb):
+            res.add([assumption("I-POINTWISE", key, where(f0, st["line"]), "operands of the amount arithmetic not recognised (%s, %s): not decided" % (ra, rb))])
+        else:
+            res.add([finding("I-POINTWISE", key, where(f0, st["line"]), "%s computes `%s %s %s`: the operands are swapped (a - b becomes b - a)" % (meth, ra, sym, rb))])
+    # Neg: every amount is replaced by its negation, nothing else is computed
+    f0 = F.fns.get("<%s as std::ops::Neg>::neg" % CA)
+    key = "%s|neg negates every amount" % CA
+    if f0 is None:
+        res.add([finding("I-POINTWISE", key, "crates/tx3-tir/src/model/assets.rs", "CanonicalAssets does not implement Neg")])
+        return
+    bodies = [f0] + [c for c in F.fns.values() if c.get("owner") == f0["path"]]
+    negs, others = [], []
+    for b in bodies:
+        for bi, si, st in mir.stmts(b):
+            rv = st["rv"]
+            if rv["k"] == "unop" and rv.get("op") == "Neg":
+                negs.append(st)
+            elif rv["k"] == "binop" and rv.get("ty") == "i128" and rv["op"] not in ("Eq", "Ne", "Lt", "Le", "Gt", "Ge"):
+                others.append(st)
+        for bi, t in mir.calls(b):
+            n = (t.get("callee") or "").split("::")[-1]
+            if n in ("checked_neg", "wrapping_neg", "overflowing_neg"):
+                negs.append({"line": t["line"]})
+            elif n in ("abs", "unsigned_abs", "signum") and "i128" in (t.get("callee") or ""):
+                others.append({"line": t["line"], "rv": {"op": n}})
+    if others:
+        res.add([finding("I-POINTWISE", key, where(f0, others[0]["line"]), "neg computes something other than the negation of each amount (%s)" % others[0].get("rv", {}).get("op"))])
+    elif len(negs) == 1:
+        res.add([ok("I-POINTWISE", key, where(f0, negs[0]["line"]), "each amount v is replaced by -v")])
+    elif not negs:
+        res.add([finding("I-POINTWISE", key, where(f0), "neg never negates an amount: -a = a")])
+    else:
+        res.add([assumption("I-POINTWISE", key, where(f0), "%d negations: shape not recognised, not decided" % len(negs))])
+
+
+_KEEP = []
+
+
 def run(ctx):
     F = ctx.F
     res = Result("C15")
     res.rule("I-NORMAL", "every construction of CanonicalAssets establishes the zero-free normal form")
     res.rule("I-PRIVATE", "nobody outside assets.rs can build or mutate the map")
     res.rule("I-CLASS", "from_asset sends each (policy present?, name present?) combination to the constructor of its own asset class")
+    res.rule("C-ORDER", "contains_total / is_empty_or_negative decide each entry exactly as the property states, over every order type of the amounts involved")
+    res.rule("I-POINTWISE", "+, - and unary - act on the amounts entry by entry with that very operator and operand order")
     i_normal(F, res)
     i_private(F, res)
     i_class(F, res)
+    c_order(F, res)
+    i_pointwise(F, res)
     if ctx.tier == "thorough":
         from ..common import run_witnesses
         passed, failed, tail = run_witnesses()
